@@ -88,6 +88,13 @@ func e2eGenCfg(r *Rand, need int) e2eCfg {
 	return g
 }
 
+func e2eMax(a, b int) int {
+	if a > b {
+		return a
+	}
+	return b
+}
+
 func e2eFrameLen(r *Rand, budget int) int {
 	switch r.Intn(8) {
 	case 0:
@@ -715,6 +722,89 @@ func genE2EAV1(x *Ctx) {
 	}
 }
 
+// ---- H265 (H265Packet.Unmarshal returns no bytes: the observation keeps the payloads it accepted)
+
+func genE2EH265(x *Ctx) {
+	frame := func(r *Rand, f []h265Framed) e2eFrame {
+		return e2eFrame{payload: h265FrameBytes(f), samples: 3000, now: pktzClockValueIn(r), extra: func(t *Toks) {
+			t.Nat(len(f))
+			for _, u := range f {
+				t.Nat(u.SC).Bytes(u.Unit)
+			}
+		}}
+	}
+	run := func(c *Case, g e2eCfg, addDONL, skip bool, frames []e2eFrame) {
+		pay := &codecs.H265Payloader{AddDONL: addDONL, SkipAggregation: skip}
+		pkt := &codecs.H265Packet{}
+		pkt.WithDONL(addDONL)
+		dep := func(p []byte) ([]byte, error) {
+			if _, err := pkt.Unmarshal(p); err != nil {
+				return nil, err
+			}
+			return p, nil
+		}
+		if addDONL {
+			c.Tag("donl (outside the hypotheses)")
+		}
+		if skip {
+			c.Tag("skipagg")
+		}
+		runE2E(c, g, pay, dep, func(t *Toks) { t.Bool(addDONL).Bool(skip) }, frames)
+	}
+	e2eGrid(x, 4, func(c *Case, g e2eCfg, lens []int) {
+		// one unit filling k packets exactly / ±1 (a single NAL unit packet, or FUs with 3 header bytes),
+		// then two small units that may be aggregated
+		b := g.budget()
+		n := lens[0]
+		if n < 3 {
+			n = 3
+		}
+		fs := []e2eFrame{frame(c.R, []h265Framed{{c.R.Pick(0, 3, 4), h265GenUnit(c.R, n, true)}})}
+		a := c.R.Range(3, e2eMax(3, b/2))
+		fs = append(fs, frame(c.R, []h265Framed{{c.R.Pick(3, 4), h265GenUnit(c.R, a, true)}, {c.R.Pick(3, 4), h265GenUnit(c.R, c.R.Range(3, e2eMax(3, b-a)), true)}}))
+		run(c, g, false, c.R.Bool(), fs)
+	})
+	for i, n := 0, x.N(2500, 100000); i < n; i++ {
+		x.Case(func(c *Case) {
+			r := c.R
+			addDONL := r.Chance(1, 10)
+			need := 4
+			if addDONL {
+				need = 6
+			}
+			g := e2eGenCfg(r, need)
+			b := g.budget()
+			wf := !r.Chance(1, 15)
+			nfr := r.Pick(1, 1, 2, 3)
+			var fs []e2eFrame
+			for len(fs) < nfr {
+				k := r.Pick(1, 1, 2, 3, r.Range(1, 6))
+				var f []h265Framed
+				for q := 0; q < k; q++ {
+					sz := h265UnitSize(r, min(b, 1500))
+					if sz > 3000 {
+						sz = r.Range(3, 3000)
+					}
+					if addDONL && sz > b-3 && b >= 6 {
+						sz = r.Range(3, b-3) // keep AddDONL streams out of the known-finding region (no FU)
+					}
+					u := h265GenUnit(r, sz, wf)
+					sc := r.Pick(3, 4)
+					if k == 1 && r.Chance(1, 3) {
+						sc = 0
+					}
+					f = append(f, h265Framed{sc, u})
+				}
+				fs = append(fs, frame(r, f))
+			}
+			if !wf {
+				c.Tag("units not well-formed (outside the hypotheses)")
+			}
+			run(c, g, addDONL, r.Bool(), fs)
+		})
+	}
+}
+
 func init() {
 	register("e2e.g711", "C06", genE2EG711)
 	register("e2e.opus", "C06", genE2EOpus)
@@ -722,4 +812,5 @@ func init() {
 	register("e2e.vp9", "C06", genE2EVP9)
 	register("e2e.h264", "C06", genE2EH264)
 	register("e2e.av1", "C06", genE2EAV1)
+	register("e2e.h265", "C06", genE2EH265)
 }
